@@ -125,3 +125,50 @@ Proof.
   unfold td3_next_action_Q, td3_next_action.
   rewrite Q2R_clamp, Q2R_plus, Q2R_clamp, !Q2R_opp, Q2R_1. reflexivity.
 Qed.
+
+(* ---------------- optimizer-facing logic ---------------- *)
+Local Open Scope Q_scope.
+
+Lemma apply_lr_spec sched progress opts :
+  length (apply_lr sched progress opts) = length opts /\
+  Forall2 (fun new old => length new = length old /\ Forall (fun lr => lr = sched progress) new) (apply_lr sched progress opts) opts.
+Proof.
+  unfold apply_lr. split; [apply map_length|].
+  induction opts as [|g t IH]; cbn [map]; constructor; [|exact IH].
+  split; [apply map_length|]. induction g; cbn [map]; constructor; [reflexivity | assumption].
+Qed.
+
+(* the code assigns exactly the value it is given, and it is given schedule(current progress) *)
+Lemma frag_lr lr p : lr_assigned lr == lr /\ lr_progress_arg p == p.
+Proof. unfold lr_assigned, lr_progress_arg. split; ring. Qed.
+
+Lemma frag_lr_model sched progress opts :
+  Forall (Forall (fun lr => lr == lr_assigned (sched (lr_progress_arg progress)))) (apply_lr (fun p => sched (lr_progress_arg p)) progress opts).
+Proof.
+  unfold apply_lr. induction opts as [|g t IH]; cbn [map]; constructor; [|exact IH].
+  induction g; cbn [map]; constructor; [|assumption].
+  symmetry. apply (proj1 (frag_lr _ progress)).
+Qed.
+
+(* SAC set-up: target entropy "auto" = -prod(action shape); default initial coefficient 1; log argument *)
+Lemma frag_sac_setup shape x :
+  sac_target_entropy_Q None shape == sac_auto_target_entropy (inject_Z (fold_right Z.mul 1%Z shape)) /\
+  sac_init_alpha_Q (EntAuto None) == sac_default_init /\
+  sac_init_alpha_Q (EntAuto (Some x)) == sac_log_arg 1 x.
+Proof.
+  unfold sac_target_entropy_Q, sac_auto_target_entropy, sac_init_alpha_Q, sac_default_init, sac_log_arg.
+  repeat split; ring.
+Qed.
+
+Lemma sac_target_entropy_vector d : sac_target_entropy_Q None [d] == - inject_Z d.
+Proof. unfold sac_target_entropy_Q. cbn [fold_right]. rewrite Z.mul_1_r. reflexivity. Qed.
+
+Local Open Scope R_scope.
+(* the learned coefficient starts at the parsed initial value: exp(log_ent_coef) = init *)
+Lemma sac_log_alpha_init_spec s : (0 < sac_init_alpha_Q s)%Q ->
+  exp (sac_log_alpha_init s) = Q2R (sac_init_alpha_Q s) /\ sac_log_alpha_init (EntAuto None) = 0.
+Proof.
+  intros H. unfold sac_log_alpha_init. split.
+  - apply exp_ln. apply Qlt_Rlt in H. rewrite Q2R_0 in H. exact H.
+  - cbn [sac_init_alpha_Q]. rewrite Q2R_1. apply ln_1.
+Qed.
